@@ -259,6 +259,11 @@ class StudyConfig(base_study_config.ProblemStatement):
         proto_converters.SearchSpaceConverter.parameter_protos(
             self.search_space))
 
+    # The internally stored proto may carry a stopping spec that has been
+    # cleared or replaced since.
+    stored_stopping_spec = proto.WhichOneof('automated_stopping_spec')
+    if stored_stopping_spec:
+      proto.ClearField(stored_stopping_spec)
     if self.automated_stopping_config is not None:
       auto_stop_proto = self.automated_stopping_config.to_proto()
       if isinstance(auto_stop_proto,
